@@ -538,7 +538,9 @@ func callSSA(i *interpreter, caller *frame, callpos token.Pos, fn *ssa.Function,
 			return ext(fr, args)
 		}
 		if fn.Blocks == nil {
-			panic("no code for function: " + name)
+			// assembly / runtime-linked function without a model: the path leaves what the executor
+			// can follow (e.g. system calls); not an event of the interpreted program
+			panic(unsupported("no code for function: " + name))
 		}
 	}
 
